@@ -363,6 +363,73 @@ def _expand(arg):
     return trace, res, nprobe
 
 
+def big_pool_scenario(which):
+    """three pending transactions of ~88 kB each (1,200 outputs): together they do not fit in a block.  The node's miner asks
+    for work, a block confirming ONE of them extends the head, the miner asks again: after every step the pool holds exactly
+    the pending transactions that are still valid (what the miner can fit in a block is the miner's business - C12)"""
+    import os
+    from .. import minerutil
+    from skepticoin import mining
+    from skepticoin.networking.messages import DataMessage, DATA_BLOCK
+    w = World()
+    seams.rebind(mining, 'time', w.net.clock)
+    d = os.path.join(os.getcwd(), 'c13-%d' % os.getpid())
+    os.makedirs(d, exist_ok=True)
+    os.chdir(d)
+    H = w.head()
+    bad = []
+    srcs = [(r, K[0]) for r in owned(H.utxo, K[0])][:2] + [(r, K[1]) for r in owned(H.utxo, K[1])][:2]
+    srcs = [(r, k) for r, k in srcs if H.utxo[r][0] > 5000][:3]
+    if len(srcs) < 3:
+        return [('harness', 'base state has fewer than three spendable outputs', ('big-pool',))]
+    txs = []
+    for n_, (r, k) in enumerate(srcs):
+        v = H.utxo[r][0]
+        txs.append(world.mk_tx([(oref(r), k)], [(1 + n_, K[2])] * 1199 + [(v - 1199 * (1 + n_) - 7, k)]))
+    trace = ['big-pool']
+    for t in txs:
+        w.node.cm.add_transaction_to_pool(t)
+    ids = [enc.txid(t) for t in txs]
+    size = sum(len(enc.enc_tx(t)) for t in txs)
+    if list(w.pool_ids()) != ids:
+        return [('harness', 'the three large transactions were not admitted', tuple(trace))]
+    mw = minerutil.make_watcher(w.node, w.node.cm.coinstate, [K[6], K[7]])
+
+    def request(tag):
+        trace.append(tag)
+        try:
+            mw.handle_request_scrypt_input_message(0, 7)
+        except Exception:
+            pass                  # (a candidate that cannot be built is C12's concern)
+    request('work request with %d bytes pending' % size)
+    if list(w.pool_ids()) != ids:
+        bad.append(('valid-pending-transaction-lost', "after a miner's work request the pool holds %d of the %d pending transactions, "
+                    "all still valid" % (len(w.pool_ids()), len(ids)), tuple(trace)))
+    pool_invariants(w, bad, tuple(trace), 'after work request')
+    conf = txs[which]
+    blk = world.assemble(H, [conf], K[5], H.ts + 120, cb_data=b'confirms one')
+    w.net.clock.t = max(w.net.clock.t, H.ts + 200)
+    trace.append('block confirming pending transaction %d' % which)
+    w.peer().send(DataMessage(DATA_BLOCK, world.from_wire(blk)))
+    nd = world.Node(blk, H, path=H.path + ('confirm',))
+    if w.node.cm.coinstate.current_chain_hash != nd.bid:
+        return bad + [('harness', 'confirming block not adopted', tuple(trace))]
+    w.fc.add(nd)
+    w.stored[nd.path] = nd
+    exp = [i for i in ids if i != enc.txid(conf)]
+    if sorted(w.pool_ids()) != sorted(exp):
+        bad.append(('pool-after-head-change', "after a block confirming one of three large pending transactions the pool holds %d "
+                    "transactions, %d are still valid" % (len(w.pool_ids()), len(exp)), tuple(trace)))
+    request('second work request')
+    if sorted(w.pool_ids()) != sorted(exp):
+        bad.append(('valid-pending-transaction-lost', "after the second work request the pool holds %d transactions, %d are still "
+                    "valid" % (len(w.pool_ids()), len(exp)), tuple(trace)))
+    pool_invariants(w, bad, tuple(trace), 'after second work request')
+    if w.net.escaped:
+        bad.append(('node-exception', "node handler: %s" % (w.net.escaped[0],), tuple(trace)))
+    return bad
+
+
 def run(ctx):
     setup_worker()
     depth = 4 if ctx.quick else 6
@@ -400,6 +467,10 @@ def run(ctx):
                     sample = list(trace) + [nm]
         frontier = nxt
         ctx.log("depth", d + 1, "new states", len(nxt))
+    for which, bp in zip((0, 1, 2), ctx.pmap(big_pool_scenario, [0, 1, 2])):
+        stats['transitions'] += 3
+        for k, what, tr in bp:
+            ctx.violation(k, "%s; operations %s" % (what, list(tr)), {'big_pool': which})
     # ---- the schedule dimension: admission, head change and an observer as separate threads on the real chain manager;
     #      and the pool after the miner thread and the networking thread raced
     thr = thrscen.run(ctx, 'C13', 2 if ctx.quick else 3)
@@ -421,6 +492,9 @@ def run(ctx):
 def replay(data, ctx):
     if 'thread_scenario' in data:
         return thrscen.replay(data)
+    if 'big_pool' in data:
+        setup_worker()
+        return [(k, w_) for k, w_, _ in big_pool_scenario(data['big_pool'])]
     setup_worker()
     t = tuple(data['trace'])
     if data.get('probe'):
